@@ -30,6 +30,10 @@ import CrCube.Model.Assemble
 import CrCube.Model.Subtotals
 import CrCube.Model.SubtotalMeasures
 import CrCube.Model.Collator
+import CrCube.Model.Variance
+import CrCube.Model.Zscore
+import CrCube.Model.ColumnIndex
+import CrCube.Model.Scale
 
 namespace CrCube.Pipeline
 open CrCube CrCube.Collator
@@ -75,27 +79,50 @@ def TIns.toRawIns (t : TIns) : RawIns :=
     positive := t.toInsertion.positive.map Eid.int, negative := t.negative.map Eid.int
     anchor := t.anchor, id := t.id }
 
-/-- the measures the pipeline computes (and a sort-by-value order may read) -/
+/-- the measures of `SecondOrderMeasures` the pipeline computes — every property name of the
+    keyword table `Collator.matrixMeasureProp` (what a sort-by-value order may read) plus medians.
+    Keys marked (s) are Out-valued in the library (a sqrt, a quotient by a sqrt, a normal tail):
+    their BLOCKS here hold the exact monotone SURROGATE the order is computed from (radicand,
+    signed square, −z²); the symbolic values are in `Model/PipelineMeasures.lean`. -/
 inductive MKey where
   | countsW | countsU | rowBasesW | rowBasesU | colBasesW | colBasesU
   | tableBasesW | tableBasesU | rowProps | colProps | tableProps
+  | variance (d : Dir)          -- {row,column,table}_proportion_variances
+  | stdErr (d : Dir)            -- (s) {row,column,table}_std_err
+  | zscores                     -- (s)
+  | pvalues                     -- (s)
+  | colIndex
+  | popProps                    -- population_proportions (blocks; no difference override)
+  | popStdErr                   -- (s) population_std_err
+  | sums | means | stddev | medians
+  | rowShare | colShare | totalShare
   deriving DecidableEq, Repr, Inhabited
 
 def MKey.all : List MKey :=
   [.countsW, .countsU, .rowBasesW, .rowBasesU, .colBasesW, .colBasesU, .tableBasesW, .tableBasesU,
-   .rowProps, .colProps, .tableProps]
+   .rowProps, .colProps, .tableProps,
+   .variance .row, .variance .col, .variance .table, .stdErr .row, .stdErr .col, .stdErr .table,
+   .zscores, .pvalues, .colIndex, .popProps, .popStdErr,
+   .sums, .means, .stddev, .medians, .rowShare, .colShare, .totalShare]
 
-/-- `MARGINAL.BASE` / `MARGINAL.MARGIN` -/
+/-- `MARGINAL` members: BASE, MARGIN, MARGIN_PROPORTION, SCALE_MEAN, SCALE_MEAN_STDDEV (s),
+    SCALE_MEAN_STDERR (s), SCALE_MEDIAN -/
 inductive MargKey where
-  | baseU | baseW
+  | baseU | baseW | tableProp | scaleMean | scaleStddev | scaleStderr | scaleMedian
   deriving DecidableEq, Repr, Inhabited
 
-/-- the stripe measures the pipeline computes -/
+/-- the stripe measures the pipeline computes (`stripeMeasureProp` + medians / stddev) -/
 inductive SKey where
   | countsW | countsU | basesW | basesU | tableProps
+  | stddevs                     -- (s) table_proportion_stddevs
+  | stderrs                     -- (s) table_proportion_stderrs
+  | popProps | popStderrs       -- population_proportions, (s) population_proportion_stderrs
+  | means | sums | stddev | medians | shareSum
   deriving DecidableEq, Repr, Inhabited
 
-def SKey.all : List SKey := [.countsW, .countsU, .basesW, .basesU, .tableProps]
+def SKey.all : List SKey :=
+  [.countsW, .countsU, .basesW, .basesU, .tableProps, .stddevs, .stderrs, .popProps, .popStderrs,
+   .means, .sums, .stddev, .medians, .shareSum]
 
 /-- direction and fixed lists of a sort-by-value order dict -/
 structure SortOpts where
@@ -124,6 +151,8 @@ structure TDim where
   catDate : Bool := false
   elems : List Elem := []
   labels : List String := []
+  /-- `Dimension.numeric_values` (NaN = no numeric value) -/
+  numVals : List Val := []
   viewIns : List TIns := []
   trIns : Option (List TIns) := none
   hide : List Bool := []
@@ -139,6 +168,7 @@ structure RDim where
   subtotals : List Subtotal
   labels : List String
   subLabels : List String
+  numVals : List Val
   order : OrderSpec
   deriving Repr, Inhabited
 
@@ -178,7 +208,8 @@ def resolve (d : TDim) : Option RDim :=
   d.collSubs.map fun subs =>
     { kind := d.kind, catDate := d.catDate
       cdim := { elems := d.elems, subs := subs, viewSubs := [], hidden := d.hidden, prune := d.prune }
-      subtotals := d.subtotals, labels := d.labels, subLabels := d.subLabels, order := d.order }
+      subtotals := d.subtotals, labels := d.labels, subLabels := d.subLabels, numVals := d.numVals
+      order := d.order }
 
 /-- strip(t): order / fixed lists / per-element hide / prune removed; insertions kept -/
 def strip (d : TDim) : TDim := { d with hide := [], prune := false, order := .payload }
@@ -205,55 +236,356 @@ def ROrder.run (d : Dim) (empties : List Nat) : ROrder → List Int
   | .byValue o v sv => displayOrder d empties (.sortval valOps o.top o.bottom o.desc v sv)
   | .byLabel o v sv => displayOrder d empties (.sortval strOps o.top o.bottom o.desc v sv)
 
+/-! ## positions, and blocks given cell by cell -/
+
+/-- a position in `elements ++ subtotals` of a dimension -/
+inductive Pos where
+  | base (i : Nat)
+  | ins (k : Nat)
+  deriving DecidableEq, Repr, Inhabited
+
+def Pos.inserted : Pos → Bool
+  | .base _ => false
+  | .ins _ => true
+
+/-- the position a signed index names (python negative indexing into `base ++ inserted`) -/
+def posOf (n nins : Nat) (si : Int) : Pos :=
+  let w := wrapIdx (n + nins) si
+  if w < n then .base w else .ins (w - n)
+
+/-- the cell of the four blocks at a (row position, column position) -/
+def blockAt (b : Blocks) : Pos → Pos → Val
+  | .base i, .base j => b.body i j
+  | .base i, .ins l => b.insCols i l
+  | .ins k, .base j => b.insRows k j
+  | .ins k, .ins l => b.inter k l
+
+/-- four blocks from a cell function -/
+def blocksOfFn (nr nc nrs ncs : Nat) (f : Pos → Pos → Val) : Blocks :=
+  { nr := nr, nc := nc, nrs := nrs, ncs := ncs
+    body := fun i j => f (.base i) (.base j)
+    insCols := fun i l => f (.base i) (.ins l)
+    insRows := fun k j => f (.ins k) (.base j)
+    inter := fun k l => f (.ins k) (.ins l) }
+
+/-- the `Side` (C11 / C12 / C16 cell description) of a position: a base element is its own only
+    addend, the k-th subtotal has the addend / subtrahend offsets of `Model/Subtotals` -/
+def sideOf (subs : List Subtotal) : Pos → Side
+  | .base i => Side.base i
+  | .ins k => ⟨(subAt subs k).addendIdxs, (subAt subs k).subtrahendIdxs, true⟩
+
+/-! ## order-preserving surrogates of the symbolic values
+
+  A sort-by-value order over `np.sqrt x`, `n / np.sqrt d` or `2 (1 − Φ(|z|))` is the order over
+  the exact rational surrogate below (sqrt and Φ-tail are monotone; NaN exactly where numpy
+  gives NaN).  `PipelineMeasures.outKey` maps every symbolic value to its surrogate. -/
+
+/-- `np.sqrt x`: increasing on x ≥ 0, NaN for a negative or NaN radicand -/
+def sqrtKey : Val → Val
+  | .fin q => if q < 0 then .nan else .fin q
+  | .pinf => .pinf
+  | _ => .nan
+
+/-- `n / np.sqrt d` ↦ sign(n) · n² / d -/
+def divSqrtKey (n d : Val) : Val :=
+  match sqrtKey d, n with
+  | .nan, _ => .nan
+  | _, .nan => .nan
+  | .fin q, n =>
+    if q = 0 then n / .fin 0
+    else match n with
+      | .fin a => .fin (if a < 0 then -(a * a / q) else a * a / q)
+      | v => v                       -- ±inf / finite positive
+  | .pinf, .fin _ => .fin 0
+  | _, _ => .nan                     -- ±inf / inf
+
+/-- `2 * (1 - norm.cdf(|z|))` is decreasing in |z|: surrogate −z² from the surrogate of z -/
+def normTailKey (zk : Val) : Val := -(Val.abs zk)
+
+/-- √a / √b -/
+def sqrtDivSqrtKey (a b : Val) : Val := sqrtKey a / sqrtKey b
+
 /-! ## 2-D: `_Slice` -/
 
-/-- the cube side of a partition: typed design, raw arrays, table element, `diff_nans` flags -/
+/-- the cube side of a partition (a COUNT cube: `diff_nans` is False): typed design, raw weighted
+    and unweighted arrays WITH their missing elements, table element, and the raw arrays of the
+    numeric measures the response carries -/
 structure CubeData where
   vars : List Var
   wraw : FT
   uraw : FT
   k : Nat := 0
-  wDiffNans : Bool := false
-  uDiffNans : Bool := false
+  sums : Option FT := none
+  means : Option FT := none
+  stddevs : Option FT := none
+  medians : Option FT := none
 
 namespace CubeData
 /-- `cube_measures.weighted_cube_counts` -/
 def w (c : CubeData) : MatCounts := sliceCounts c.vars c.wraw c.k
 /-- `cube_measures.unweighted_cube_counts` -/
 def u (c : CubeData) : MatCounts := sliceCounts c.vars c.uraw c.k
+/-- `cube_measures.cube_{sum,means,stddev,medians}`: the numeric classes read the cells the count
+    classes read (C01 `numeric_reports_payload`); absent measure = the library raises ValueError -/
+def numeric (c : CubeData) (o : Option FT) : Nat → Nat → Val :=
+  match o with
+  | some raw => (sliceCounts c.vars raw c.k).counts
+  | none => fun _ _ => .nan
 end CubeData
 
 def sliceCtx (rows cols : RDim) : SubCtx :=
   { rowSubs := rows.subtotals, colSubs := cols.subtotals
     rowsCatDate := rows.catDate, colsCatDate := cols.catDate }
 
-/-- `SecondOrderMeasures.<measure>.blocks` -/
-def blocksOf (w u : MatCounts) (wdn udn : Bool) (x : SubCtx) : MKey → Blocks
-  | .countsW => Msr.counts w wdn x
-  | .countsU => Msr.counts u udn x
+/-! ### C11: the variance family on the pipeline's primitives -/
+
+def dirBases (m : MatCounts) : Dir → Nat → Nat → Val
+  | .row => m.rowBases
+  | .col => m.columnBases
+  | .table => m.tableBases
+
+/-- `_{Row,Column,Table}WeightedBases.blocks` -/
+def dirBaseBlocks (m : MatCounts) (x : SubCtx) : Dir → Blocks
+  | .row => Msr.rowWeightedBases m x
+  | .col => Msr.columnWeightedBases m x
+  | .table => Msr.tableBases m x
+
+/-- `_{Row,Column,Table}Proportions.blocks` -/
+def dirPropBlocks (m : MatCounts) (x : SubCtx) : Dir → Blocks
+  | .row => Msr.rowProportions m false x
+  | .col => Msr.columnProportions m false x
+  | .table => Msr.tableProportions m false x
+
+/-- the four sums `WaveDiffSubtotal` reads for an inserted row / column: counts and bases of the
+    direction over the addends and over the subtrahends -/
+def waveTerms (m : MatCounts) (x : SubCtx) (dir : Dir) : Pos → Pos → Val × Val × Val × Val
+  | .ins k, .base j =>
+    let s := subAt x.rowSubs k
+    (sumAt s.addendIdxs (fun i => m.counts i j), sumAt s.addendIdxs (fun i => dirBases m dir i j),
+     sumAt s.subtrahendIdxs (fun i => m.counts i j), sumAt s.subtrahendIdxs (fun i => dirBases m dir i j))
+  | .base i, .ins l =>
+    let s := subAt x.colSubs l
+    (sumAt s.addendIdxs (fun j => m.counts i j), sumAt s.addendIdxs (fun j => dirBases m dir i j),
+     sumAt s.subtrahendIdxs (fun j => m.counts i j), sumAt s.subtrahendIdxs (fun j => dirBases m dir i j))
+  | _, _ => (.nan, .nan, .nan, .nan)
+
+/-- **the C11 cell on the pipeline's primitives**: positive / negative term counts from the
+    `PositiveTermSubtotals` / `NegativeTermSubtotals` blocks of the weighted counts, the base from
+    the direction's weighted-base blocks, the wave terms from the extractor -/
+def varCellAt (m : MatCounts) (x : SubCtx) (dir : Dir) (P Q : Pos) : VarCell :=
+  let wv := waveTerms m x dir P Q
+  { dir := dir, R := sideOf x.rowSubs P, C := sideOf x.colSubs Q
+    rowsCatDate := x.rowsCatDate, colsCatDate := x.colsCatDate
+    np := blockAt (PosSub.blocks m.counts m.nrows m.ncols x.rowSubs x.colSubs) P Q
+    nn := blockAt (NegSub.blocks m.counts m.nrows m.ncols x.rowSubs x.colSubs) P Q
+    base := blockAt (dirBaseBlocks m x dir) P Q
+    cA := wv.1, bA := wv.2.1, cS := wv.2.2.1, bS := wv.2.2.2 }
+
+/-- `{row,column,table}_proportion_variances.blocks` -/
+def varianceBlocks (m : MatCounts) (x : SubCtx) (d : Dir) : Blocks :=
+  blocksOfFn m.nrows m.ncols x.rowSubs.length x.colSubs.length
+    (fun P Q => (varCellAt m x d P Q).variance)
+
+/-- surrogate of `_{Row,Column,Table}StandardError.blocks` = sqrt(variance / weighted base) -/
+def stdErrKeyBlocks (m : MatCounts) (x : SubCtx) (d : Dir) : Blocks :=
+  blocksOfFn m.nrows m.ncols x.rowSubs.length x.colSubs.length
+    (fun P Q => let vc := varCellAt m x d P Q; sqrtKey (vc.variance / vc.total))
+
+/-! ### C12: z-scores and p-values on the pipeline's blocks -/
+
+/-- the four numbers `_calculate_zscores` reads for a cell: the same position of the weighted
+    count, table-base, row-base and column-base blocks -/
+def zCellAt (m : MatCounts) (x : SubCtx) (P Q : Pos) : ZCell :=
+  { n := blockAt (Msr.counts m false x) P Q
+    t := blockAt (Msr.tableBases m x) P Q
+    r := blockAt (Msr.rowWeightedBases m x) P Q
+    c := blockAt (Msr.columnWeightedBases m x) P Q }
+
+/-- all positions of the block a position lies in -/
+def regionOf (n nins : Nat) : Pos → List Pos
+  | .base _ => (List.range n).map Pos.base
+  | .ins _ => (List.range nins).map Pos.ins
+
+/-- the cells of the block containing (P, Q) -/
+def zBlockCells (m : MatCounts) (x : SubCtx) (P Q : Pos) : List (List ZCell) :=
+  (regionOf m.nrows x.rowSubs.length P).map fun p =>
+    (regionOf m.ncols x.colSubs.length Q).map fun q => zCellAt m x p q
+
+/-- `_Zscores._is_defective` on the base block of the weighted counts, and the per-block guard -/
+def zGuardAt (m : MatCounts) (x : SubCtx) (P Q : Pos) : Bool :=
+  blockGuard (isDefective m.nrows m.ncols m.counts) (zBlockCells m x P Q)
+
+/-- the guards of the four blocks, computed once -/
+structure ZGuards where
+  bb : Bool
+  bi : Bool
+  ib : Bool
+  ii : Bool
+
+def zGuards (m : MatCounts) (x : SubCtx) : ZGuards :=
+  let dfct := isDefective m.nrows m.ncols m.counts       -- once for the four blocks
+  { bb := blockGuard dfct (zBlockCells m x (.base 0) (.base 0))
+    bi := blockGuard dfct (zBlockCells m x (.base 0) (.ins 0))
+    ib := blockGuard dfct (zBlockCells m x (.ins 0) (.base 0))
+    ii := blockGuard dfct (zBlockCells m x (.ins 0) (.ins 0)) }
+
+def ZGuards.at (g : ZGuards) : Pos → Pos → Bool
+  | .base _, .base _ => g.bb
+  | .base _, .ins _ => g.bi
+  | .ins _, .base _ => g.ib
+  | .ins _, .ins _ => g.ii
+
+/-- surrogate of `_Zscores.blocks` -/
+def zKeyBlocks (m : MatCounts) (x : SubCtx) : Blocks :=
+  let g := zGuards m x
+  blocksOfFn m.nrows m.ncols x.rowSubs.length x.colSubs.length (fun P Q =>
+    if g.at P Q then .nan
+    else let z := zCellAt m x P Q; divSqrtKey (z.n - z.expected) z.variance)
+
+/-- surrogate of `_Pvalues.blocks` -/
+def pKeyBlocks (m : MatCounts) (x : SubCtx) : Blocks :=
+  let z := zKeyBlocks m x
+  blocksOfFn m.nrows m.ncols x.rowSubs.length x.colSubs.length (fun P Q => normTailKey (blockAt z P Q))
+
+/-! ### C16: column index -/
+
+/-- `_ColumnIndex.blocks`: `NanSubtotals` over 100 · (count / column base) / baseline, the
+    baseline read from the array WITH its missing elements -/
+def colIndexBlocks (c : CubeData) (x : SubCtx) : Blocks :=
+  let bl := baselineOfCube c.vars c.wraw c.k
+  let m := c.w
+  blocksOfFn m.nrows m.ncols x.rowSubs.length x.colSubs.length (fun P Q =>
+    match P, Q with
+    | .base i, .base j => columnIndexCell false (m.counts i j) (m.columnBases i j) (bl i j)
+    | _, _ => columnIndexCell true .nan .nan .nan)
+
+/-! ### C17: which proportion the population estimates use -/
+
+/-- `_PopulationProportions` / `_PopulationStandardError`: rows CAT_DATE → row direction, else
+    columns CAT_DATE → column direction, else table (`Population.popMode`) -/
+def popDir (rowsCatDate colsCatDate : Bool) : Dir :=
+  if rowsCatDate then .row else if colsCatDate then .col else .table
+
+/-- `SecondOrderMeasures.<measure>.blocks` (surrogates for the keys marked (s)) -/
+def sliceBlocks (c : CubeData) (rows cols : RDim) (key : MKey) : Blocks :=
+  let x := sliceCtx rows cols
+  let w := c.w
+  let u := c.u
+  match key with
+  | .countsW => Msr.counts w false x
+  | .countsU => Msr.counts u false x
   | .rowBasesW => Msr.rowWeightedBases w x
   | .rowBasesU => Msr.rowUnweightedBases u x
   | .colBasesW => Msr.columnWeightedBases w x
   | .colBasesU => Msr.columnUnweightedBases u x
   | .tableBasesW => Msr.tableBases w x
   | .tableBasesU => Msr.tableBases u x
-  | .rowProps => Msr.rowProportions w wdn x
-  | .colProps => Msr.columnProportions w wdn x
-  | .tableProps => Msr.tableProportions w wdn x
+  | .rowProps => Msr.rowProportions w false x
+  | .colProps => Msr.columnProportions w false x
+  | .tableProps => Msr.tableProportions w false x
+  | .variance d => varianceBlocks w x d
+  | .stdErr d => stdErrKeyBlocks w x d
+  | .zscores => zKeyBlocks w x
+  | .pvalues => pKeyBlocks w x
+  | .colIndex => colIndexBlocks c x
+  | .popProps => dirPropBlocks w x (popDir rows.catDate cols.catDate)
+  | .popStdErr => stdErrKeyBlocks w x (popDir rows.catDate cols.catDate)
+  | .sums => Msr.sums (c.numeric c.sums) w.nrows w.ncols x
+  | .means => Msr.nanMeasure (c.numeric c.means) w.nrows w.ncols x
+  | .stddev => Msr.nanMeasure (c.numeric c.stddevs) w.nrows w.ncols x
+  | .medians => Msr.nanMeasure (c.numeric c.medians) w.nrows w.ncols x
+  | .rowShare => Msr.rowShareSum (c.numeric c.sums) w.nrows w.ncols x
+  | .colShare => Msr.columnShareSum (c.numeric c.sums) w.nrows w.ncols x
+  | .totalShare => Msr.totalShareSum (c.numeric c.sums) w.nrows w.ncols x
 
-/-- the blocks of a measure of the partition, as a function of the WHOLE case (the dimensions
-    come with their display transforms; `C05.slice_blocks_independent` shows they are not read) -/
-def sliceBlocks (c : CubeData) (rows cols : RDim) (key : MKey) : Blocks :=
-  blocksOf c.w c.u c.wDiffNans c.uDiffNans (sliceCtx rows cols) key
+/-- is the cube measure behind a key in the response?  (`ValueError` otherwise: a public
+    output raises, a sort-by-value order falls back to payload order) -/
+def sliceAvail (c : CubeData) : MKey → Bool
+  | .sums | .rowShare | .colShare | .totalShare => c.sums.isSome
+  | .means => c.means.isSome
+  | .stddev => c.stddevs.isSome
+  | .medians => c.medians.isSome
+  | _ => true
 
 /-- `_BaseOrderHelper._empty_row_idxs` / `_empty_column_idxs` -/
 def rowEmpties (c : CubeData) : List Nat := trueIdxs c.u.rowsPruningMask
 def colEmpties (c : CubeData) : List Nat := trueIdxs c.u.columnsPruningMask
 
+/-! ### C14: scale marginals, and the other marginals a rows order may sort by -/
+
+def toScaleSub (s : Subtotal) : Scale.Sub := ⟨s.addendIdxs, s.subtrahendIdxs⟩
+
+/-- `rows_scale_{mean,median,mean_stddev,mean_stderr}.blocks`: the statistics of every row
+    vector (base rows, then subtotal rows) over the COLUMNS dimension's numeric values -/
+def rowScaleVectors (c : CubeData) (rows cols : RDim) : List Scale.VecStats :=
+  Scale.sliceVectors cols.numVals (c.w.mat c.w.counts) (c.w.mat c.w.rowBases)
+    (rows.subtotals.map toScaleSub)
+
+/-- columns orientation: the same code on the transposed counts and column bases -/
+def colScaleVectors (c : CubeData) (rows cols : RDim) : List Scale.VecStats :=
+  let w := c.w
+  Scale.sliceVectors rows.numVals (tab2 w.ncols w.nrows (fun j i => w.counts i j))
+    (tab2 w.ncols w.nrows (fun j i => w.columnBases i j)) (cols.subtotals.map toScaleSub)
+
+/-- surrogate of a scale statistic -/
+def soutKey : Scale.SOut → Val
+  | .v x => x
+  | .sqrt x => sqrtKey x
+  | .sqrtDivSqrt a b => sqrtDivSqrtKey a b
+  | .none_ => .nan
+
+/-- `_SortRowsByMarginalHelper._marginal.blocks` as (base values, subtotal values) of sort keys;
+    `none` = the marginal is undefined and `.blocks` raises `ValueError` -/
+def rowMarginalKeys (c : CubeData) (rows cols : RDim) : MargKey → Option (List Val × List Val)
+  | .baseU =>
+    if cols.kind == .cat then
+      let b := sliceBlocks c rows cols .rowBasesU
+      some (tab1 b.nr (fun i => b.body i 0), tab1 b.nrs (fun k => b.insRows k 0))
+    else none
+  | .baseW =>
+    match c.w.rowsBase with
+    | some _ =>
+      let b := sliceBlocks c rows cols .rowBasesW
+      some (tab1 b.nr (fun i => b.body i 0), tab1 b.nrs (fun k => b.insRows k 0))
+    | none => none
+  | .tableProp =>
+    -- _MarginTableProportion: Σ_cols weighted counts (differences included) / rows table base
+    if cols.kind == .cat then
+      match c.w.rowsTableBase with
+      | some tb =>
+        let b := sliceBlocks c rows cols .countsW
+        some (tab1 b.nr (fun i => vsum b.nc (fun j => b.body i j) / tb i),
+              tab1 b.nrs (fun k => vsum b.nc (fun j => b.insRows k j) / tb 0))
+      | none => none
+    else none
+  | .scaleMean =>
+    if Scale.isDefined cols.numVals then
+      let vs := rowScaleVectors c rows cols
+      some ((vs.take c.w.nrows).map (·.mean), (vs.drop c.w.nrows).map (·.mean))
+    else none
+  | .scaleMedian =>
+    if Scale.isDefined cols.numVals then
+      let vs := rowScaleVectors c rows cols
+      some ((vs.take c.w.nrows).map (·.median), (vs.drop c.w.nrows).map (·.median))
+    else none
+  | .scaleStddev =>
+    if Scale.isDefined cols.numVals then
+      let vs := rowScaleVectors c rows cols
+      some ((vs.take c.w.nrows).map (fun v => soutKey v.stddev),
+            (vs.drop c.w.nrows).map (fun v => soutKey v.stddev))
+    else none
+  | .scaleStderr =>
+    if Scale.isDefined cols.numVals && c.w.rowsBase.isSome then
+      let vs := rowScaleVectors c rows cols
+      some ((vs.take c.w.nrows).map (fun v => soutKey v.stderr),
+            (vs.drop c.w.nrows).map (fun v => soutKey v.stderr))
+    else none
+
 /-- `_BaseOrderHelper.row_display_order`: helper class by collation method, its sort values
-    read from the measure blocks; every `ValueError` raised while resolving them gives the
-    payload-order fallback. -/
-def rowROrder (B : MKey → Blocks) (w : MatCounts) (rows cols : RDim) : ROrder :=
+    read from the measure blocks `B` (when the measure is available) or the marginal `Mg`; every
+    `ValueError` raised while resolving them gives the payload-order fallback. -/
+def rowROrder (B : MKey → Blocks) (avail : MKey → Bool) (Mg : MargKey → Option (List Val × List Val))
+    (rows cols : RDim) : ROrder :=
   match rows.order with
   | .explicit ex => .explicit ex
   | .label o => .byLabel o rows.labels rows.subLabels
@@ -261,8 +593,10 @@ def rowROrder (B : MKey → Blocks) (w : MatCounts) (rows cols : RDim) : ROrder 
     -- _SortRowsByBaseColumnHelper
     match m, indexOf? cols.cdim.ids id with
     | some key, some j =>
-      let b := B key
-      .byValue o (tab1 b.nr (fun i => b.body i j)) (tab1 b.nrs (fun k => b.insRows k j))
+      if avail key then
+        let b := B key
+        .byValue o (tab1 b.nr (fun i => b.body i j)) (tab1 b.nrs (fun k => b.insRows k j))
+      else .payload
     | _, _ => .payload
   | .oppInsertion insId m o =>
     if cols.kind != .cat then
@@ -273,28 +607,20 @@ def rowROrder (B : MKey → Blocks) (w : MatCounts) (rows cols : RDim) : ROrder 
       -- _SortRowsByInsertedColumnHelper
       match m, indexOf? (bogusIds cols.cdim.subs) insId with
       | some key, some l =>
-        let b := B key
-        .byValue o (tab1 b.nr (fun i => b.insCols i l)) (tab1 b.nrs (fun k => b.inter k l))
+        if avail key then
+          let b := B key
+          .byValue o (tab1 b.nr (fun i => b.insCols i l)) (tab1 b.nrs (fun k => b.inter k l))
+        else .payload
       | _, _ => .payload
   | .marginal m o =>
     -- _SortRowsByMarginalHelper: `_marginal.blocks` of an undefined marginal raises ValueError
-    match m with
-    | some .baseU =>
-      if cols.kind == .cat then
-        let b := B .rowBasesU
-        .byValue o (tab1 b.nr (fun i => b.body i 0)) (tab1 b.nrs (fun k => b.insRows k 0))
-      else .payload
-    | some .baseW =>
-      match w.rowsBase with
-      | some _ =>
-        let b := B .rowBasesW
-        .byValue o (tab1 b.nr (fun i => b.body i 0)) (tab1 b.nrs (fun k => b.insRows k 0))
-      | none => .payload
+    match m.bind Mg with
+    | some (v, sv) => .byValue o v sv
     | none => .payload
   | _ => .payload        -- payload_order, univariate_measure (no slice helper), unknown type
 
 /-- `_BaseOrderHelper.column_display_order` (no marginal / derived-row helpers on this axis) -/
-def colROrder (B : MKey → Blocks) (rows cols : RDim) : ROrder :=
+def colROrder (B : MKey → Blocks) (avail : MKey → Bool) (rows cols : RDim) : ROrder :=
   match cols.order with
   | .explicit ex => .explicit ex
   | .label o => .byLabel o cols.labels cols.subLabels
@@ -302,15 +628,19 @@ def colROrder (B : MKey → Blocks) (rows cols : RDim) : ROrder :=
     -- _SortColumnsByBaseRowHelper
     match m, indexOf? rows.cdim.ids id with
     | some key, some i =>
-      let b := B key
-      .byValue o (tab1 b.nc (fun j => b.body i j)) (tab1 b.ncs (fun l => b.insCols i l))
+      if avail key then
+        let b := B key
+        .byValue o (tab1 b.nc (fun j => b.body i j)) (tab1 b.ncs (fun l => b.insCols i l))
+      else .payload
     | _, _ => .payload
   | .oppInsertion insId m o =>
     -- _SortColumnsByInsertedRowHelper
     match m, indexOf? (bogusIds rows.cdim.subs) insId with
     | some key, some k =>
-      let b := B key
-      .byValue o (tab1 b.nc (fun j => b.insRows k j)) (tab1 b.ncs (fun l => b.inter k l))
+      if avail key then
+        let b := B key
+        .byValue o (tab1 b.nc (fun j => b.insRows k j)) (tab1 b.ncs (fun l => b.inter k l))
+      else .payload
     | _, _ => .payload
   | _ => .payload
 
@@ -324,12 +654,13 @@ def colPruneSubs (c : CubeData) (rows : RDim) : Bool :=
 /-- `_Slice._row_order_signed_indexes` -/
 def sliceRowOrder (c : CubeData) (rows cols : RDim) : List Int :=
   helperDisplayOrder (rowPruneSubs c cols)
-    ((rowROrder (sliceBlocks c rows cols) c.w rows cols).run rows.cdim (rowEmpties c))
+    ((rowROrder (sliceBlocks c rows cols) (sliceAvail c) (rowMarginalKeys c rows cols) rows cols).run
+      rows.cdim (rowEmpties c))
 
 /-- `_Slice._column_order_signed_indexes` -/
 def sliceColOrder (c : CubeData) (rows cols : RDim) : List Int :=
   helperDisplayOrder (colPruneSubs c rows)
-    ((colROrder (sliceBlocks c rows cols) rows cols).run cols.cdim (colEmpties c))
+    ((colROrder (sliceBlocks c rows cols) (sliceAvail c) rows cols).run cols.cdim (colEmpties c))
 
 /-- `np.block(blocks)` as the assembly step takes it -/
 def toA (b : Blocks) : ABlocks :=
@@ -456,38 +787,94 @@ structure StrandData where
   vars : List Var
   wraw : FT
   uraw : FT
+  sums : Option FT := none
+  means : Option FT := none
+  stddevs : Option FT := none
+  medians : Option FT := none
 
 namespace StrandData
 def w (c : StrandData) : StripeCounts := strandCounts c.vars c.wraw
 def u (c : StrandData) : StripeCounts := strandCounts c.vars c.uraw
+/-- `cube_measures.cube_{sum,means,stddev,medians}` of a stripe -/
+def numeric (c : StrandData) (o : Option FT) : Nat → Val :=
+  match o with
+  | some raw => (strandCounts c.vars raw).counts
+  | none => fun _ => .nan
 end StrandData
 
-/-- `StripeMeasures.<measure>.blocks` -/
+/-- base values and subtotal values from a cell function -/
+def sblocksOfFn (n ns : Nat) (f : Pos → Val) : StripeMsr.SBlocks :=
+  { n := n, ns := ns, base := fun i => f (.base i), subs := fun k => f (.ins k) }
+
+/-- **the C11 strand cell on the pipeline's primitives** (`_TableProportionVariances`): counts and
+    bases of the stripe extractor; a subtotal has the positive / negative term sums of the
+    weighted counts and the table base -/
+def strandCellAt (m : StripeCounts) (subs : List Subtotal) (catDate : Bool) : Pos → StrandCell
+  | .base i =>
+    { S := Side.base i, catDate := catDate, np := m.counts i, nn := .fin 0, base := m.bases i }
+  | .ins k =>
+    let s := subAt subs k
+    { S := ⟨s.addendIdxs, s.subtrahendIdxs, true⟩, catDate := catDate
+      np := Stripe.posVal m.counts s, nn := Stripe.negVal m.counts s
+      base := match m.tableBase with | some t => t | none => .nan
+      cA := sumAt s.addendIdxs m.counts, bA := sumAt s.addendIdxs m.bases
+      cS := sumAt s.subtrahendIdxs m.counts, bS := sumAt s.subtrahendIdxs m.bases }
+
+/-- `StripeMeasures.<measure>.blocks` (surrogates for the keys marked (s)) -/
 def strandBlocks (c : StrandData) (d : RDim) : SKey → StripeMsr.SBlocks
   | .countsW => StripeMsr.sumMeasure c.w.counts c.w.n d.subtotals
   | .countsU => StripeMsr.sumMeasure c.u.counts c.u.n d.subtotals
   | .basesW => StripeMsr.bases c.w d.subtotals
   | .basesU => StripeMsr.bases c.u d.subtotals
   | .tableProps => StripeMsr.tableProportions c.w d.catDate d.subtotals
+  | .stddevs =>
+    sblocksOfFn c.w.n d.subtotals.length (fun P => sqrtKey (strandCellAt c.w d.subtotals d.catDate P).variance)
+  | .stderrs =>
+    sblocksOfFn c.w.n d.subtotals.length (fun P =>
+      let sc := strandCellAt c.w d.subtotals d.catDate P
+      sqrtKey (sc.variance / sc.base))
+  | .popProps =>
+    -- stripe `_PopulationProportions`: all ones on a CAT_DATE dimension
+    let b := StripeMsr.tableProportions c.w d.catDate d.subtotals
+    if d.catDate then { b with base := fun _ => .fin 1, subs := fun _ => .fin 1 } else b
+  | .popStderrs =>
+    -- stripe `_PopulationProportionStderrs`: all zeros on a CAT_DATE dimension
+    sblocksOfFn c.w.n d.subtotals.length (fun P =>
+      if d.catDate then .fin 0
+      else
+        let sc := strandCellAt c.w d.subtotals d.catDate P
+        sqrtKey (sc.variance / sc.base))
+  | .means => StripeMsr.nanMeasure (c.numeric c.means) c.w.n d.subtotals
+  | .sums => StripeMsr.sumMeasure (c.numeric c.sums) c.w.n d.subtotals
+  | .stddev => StripeMsr.nanMeasure (c.numeric c.stddevs) c.w.n d.subtotals
+  | .medians => StripeMsr.nanMeasure (c.numeric c.medians) c.w.n d.subtotals
+  | .shareSum => StripeMsr.shareSum (c.numeric c.sums) c.w.n d.subtotals
+
+def strandAvail (c : StrandData) : SKey → Bool
+  | .sums | .shareSum => c.sums.isSome
+  | .means => c.means.isSome
+  | .stddev => c.stddevs.isSome
+  | .medians => c.medians.isSome
+  | _ => true
 
 /-- `_BaseOrderHelper._empty_row_idxs`: `N == 0` over `pruning_base` -/
 def strandEmpties (c : StrandData) : List Nat :=
   trueIdxs (tab1 c.u.n (fun i => c.u.pruningBase i == .fin 0))
 
 /-- `stripe.assembler._BaseOrderHelper.display_order` -/
-def strandROrder (B : SKey → StripeMsr.SBlocks) (d : RDim) : ROrder :=
+def strandROrder (B : SKey → StripeMsr.SBlocks) (avail : SKey → Bool) (d : RDim) : ROrder :=
   match d.order with
   | .explicit ex => .explicit ex
   | .label o => .byLabel o d.labels d.subLabels
   | .univariate m o =>
     match m with
-    | some key => let b := B key; .byValue o b.baseL b.subsL
+    | some key => if avail key then let b := B key; .byValue o b.baseL b.subsL else .payload
     | none => .payload
   | _ => .payload
 
 /-- `_Strand._row_order_signed_indexes` (a strand never drops its subtotals) -/
 def strandOrder (c : StrandData) (d : RDim) : List Int :=
-  (strandROrder (strandBlocks c d) d).run d.cdim (strandEmpties c)
+  (strandROrder (strandBlocks c d) (strandAvail c) d).run d.cdim (strandEmpties c)
 
 structure StrandOut where
   rowOrder : List Int
